@@ -795,6 +795,43 @@ class C03(Check):
                                   witness="add_surrogate(s with outputs ['y']); add_parameter('y', 1.0) succeeds" if call == "_insert_id"
                                   else "remove_surrogate('s'); add_parameter('y', 1.0) raises although nothing is called y any more")
 
+    def i6_plural(self, m) -> None:
+        """add_xs / update_xs / scale_xs apply the singular mutator to every item, on every path of the loop."""
+        from ..interp import Sym, SymInterp
+
+        class I1(SymInterp):
+            loop_unroll = 1
+
+        for name in sorted(m.methods):
+            if name.startswith("_") or not name.endswith("s") or not name.startswith(("add_", "update_", "scale_", "remove_")):
+                continue
+            single = name[:-1]
+            if single not in m.methods:
+                continue
+            fn = m.methods[name]
+            q = f"{CLS}.{name}"
+            params = [a.arg for a in fn.args.args[1:]]
+            if not params:
+                continue
+            src = params[0]
+            paths = [st for st, _ in I1().run_function(fn, Sym()).returns]
+            iterated = applied = 0
+            for st in paths:
+                texts = [x for e in st.events for x in e[1:] if isinstance(x, str)] + [c for c, _ in st.conds]
+                if not any(f"(0, {src}" in t for t in texts):
+                    continue
+                iterated += 1
+                if any(e[0] == "call" and e[1].startswith(f"self.{single}(") and f"(0, {src}" in e[1] for e in st.events):
+                    applied += 1
+            loop = next((l for l in ast.walk(fn) if isinstance(l, ast.For)), fn)
+            if iterated == 0:
+                self.violated("I6", MOD, q, "every-item-applied", fn, f"the items of `{src}` are never walked: the plural mutator does nothing")
+            elif applied == iterated:
+                self.holds("I6", MOD, q, "every-item-applied", loop, f"self.{single}(item..) on all {iterated} paths of an iteration")
+            else:
+                self.violated("I6", MOD, q, "every-item-applied", loop, f"on {iterated - applied} of {iterated} paths of an iteration no self.{single}(..) is called for the item: that item's edit is dropped",
+                              witness=f"m.{name}({{'a': <plain value>}}) leaves a unchanged")
+
     def i6(self, m, public) -> None:
         """Every argument of a mutator reaches an effect - a store, a call, an iteration - and is not merely tested.  An argument that is
         only looked at (`if unit is not None:` with the assignment gone) means that part of the requested edit is silently not made."""
@@ -860,6 +897,7 @@ class C03(Check):
         ]
         self.analysed["public_mutators"] = public
         self.i6(m, public)
+        self.i6_plural(m)
         self.i3_outputs(m)
         for name in public:
             fn = m.methods[name]
